@@ -7,7 +7,7 @@ props=[c['property_id'] for c in json.load(open(V+'/MANIFEST.json'))['checks']]
 def one(pd):
     d=tempfile.mkdtemp(prefix='pe_')
     try:
-        subprocess.run(['rsync','-a','--exclude','target','--exclude','.git','/repo/',d+'/'],check=True)
+        subprocess.run('git -C /repo archive HEAD | tar -x -C '+d, shell=True, check=True)      # the committed tree, not the working tree
         a=subprocess.run(['git','apply','--unsafe-paths','--directory='+d, pd+'/patch.diff'],capture_output=True,text=True,cwd='/')
         if a.returncode!=0:
             a=subprocess.run(['patch','-p1','-d',d,'-i',pd+'/patch.diff'],capture_output=True,text=True)
